@@ -1,5 +1,94 @@
-import TshVerif.Model.ConvBash
+/-
+  C18 - Command calls get exactly the given arguments; pipes and capture are exact.
+
+  Proved here, about the model of converters/bash/converter.go (`AppCall`) that the check ties to the
+  code byte for byte, and a model of bash's word splitting and double-quote rules (Lemmas/Quote.lean):
+    * `command_words`: for every bare program name and every list of literal argument texts without
+      `$`/backquote, the emitted command line is read back by bash as exactly `name, a1, …, an`
+      (n arguments, each byte for byte: empty strings, blanks, quotes, backslashes, globs, dashes);
+    * `pipeline_in_order`: the programs of a chain are joined left to right by ` | `;
+    * `capture_lines`: a used call chain emits exactly `h1="$(chain)"` directly followed by
+      `h2="$?"`, returns `${h1}`, "" and `${h2}`, and emits no printing line; an unused chain emits
+      the chain itself.
+  What `$( )`, `$?` and `|` mean to bash, and literals with `$`/backquote (known finding of C08), are
+  outside the theorems: the argv-probe oracle of the check decides them on executions.
+-/
+import TshVerif.Lemmas.Quote
+import TshVerif.Lemmas.BashStmt
 namespace Tsh.C18
-open Tsh Tsh.Bash
+open Tsh Tsh.Tr Tsh.Bash
+
+/-- the text of one program call: name, then every argument between double quotes -/
+def callText (c : String × List String) : String :=
+  c.1 ++ (if (c.2.map fun a => "\"" ++ a ++ "\"").isEmpty then "" else " ") ++ " ".intercalate (c.2.map fun a => "\"" ++ a ++ "\"")
+
+theorem appCallString_eq (calls : List (String × List String)) : appCallString calls = " | ".intercalate (calls.map callText) := by
+  unfold appCallString callText
+  congr 1
+
+/-- **Pipes connect the programs in source order.** -/
+theorem pipeline_in_order (c1 c2 : String × List String) (cs : List (String × List String)) :
+    appCallString (c1 :: c2 :: cs) = callText c1 ++ " | " ++ appCallString (c2 :: cs) := by
+  simp [appCallString_eq]
+
+theorem intercalate_blank : ∀ (x : List Char) (xs : List (List Char)),
+    [' '].intercalate (x :: xs) = x ++ xs.flatMap (' ' :: ·) := by
+  intro x xs
+  induction xs generalizing x with
+  | nil => simp [List.intercalate]
+  | cons y ys ih =>
+    have := ih y
+    simp [List.intercalate, List.intersperse] at this ⊢
+    simp [this]
+
+theorem callText_toList (name : String) (args : List String) :
+    (callText (name, args)).toList = name.toList ++ quotedRaw (args.map String.toList) := by
+  cases args with
+  | nil => simp [callText, quotedRaw]
+  | cons a rest =>
+    simp only [callText, List.map_cons, List.isEmpty_cons, Bool.false_eq_true, if_false, String.toList_append,
+      String.toList_intercalate]
+    have h1 : (" " : String).toList = [' '] := rfl
+    have h2 : ("\"" : String).toList = ['"'] := rfl
+    rw [h1, intercalate_blank]
+    simp [quotedRaw, String.toList_append, h2, List.flatMap_cons, List.map_map]
+    induction rest with
+    | nil => simp
+    | cons b rest ih => simp [String.toList_append, h2, ih]
+
+/-- **Exactly the given arguments.** -/
+theorem command_words (name : String) (args : List String) (hn : name.toList ≠ [])
+    (hb : ∀ c ∈ name.toList, bareChar c = true) (ha : ∀ a ∈ args, plainString a = true) :
+    shSplit false none (appCallString [(name, args.map stringToString)]).toList = some (name.toList :: args.map String.toList) := by
+  have e : appCallString [(name, args.map stringToString)] = callText (name, args.map stringToString) := by
+    simp [appCallString_eq]
+  rw [e, callText_toList]
+  have := words_of_command name.toList (args.map String.toList) hn hb (by
+    intro a ha'
+    simp at ha'
+    obtain ⟨s, hs, rfl⟩ := ha'
+    have := ha s hs
+    simpa [plainString] using this)
+  simpa [List.map_map, Function.comp_def, stringToString_toList] using this
+
+/-- **Capture**: a used chain assigns the output and then the exit status, and prints nothing. -/
+theorem capture_lines (cs : String) (s : St) :
+    appCallWith cs true s =
+      .ok ([varEvalString s s!"_h{s.varCounter}" false, "", varEvalString s s!"_h{s.varCounter + 1}" false],
+           { s with varCounter := s.varCounter + 2,
+                    code := .assign (varName s s!"_h{s.varCounter + 1}" false) "$?" ::
+                            .assign (varName s s!"_h{s.varCounter}" false) s!"$({cs})" :: s.code }) := by
+  simp [appCallWith, bind, nextHelperVar, varAssignment, varEvaluation, Tr.get, addLine, Tr.modify, pure,
+    varEvalString, varName, inFunction]
+
+/-- an unused chain is emitted as a command of its own -/
+theorem uncaptured_line (cs : String) (s : St) :
+    appCallWith cs false s = .ok (["", "", "0"], { s with code := .appCall cs :: s.code }) := by
+  simp [appCallWith, bind, addLine, Tr.modify, pure]
+
+/-! non-vacuity: a concrete command with an empty argument, blanks, quotes, a backslash and a glob -/
+#guard shSplit false none (appCallString [("printf", ["".toList, "a b".toList, "x\"y\\z".toList, "*".toList, "-n".toList].map
+          fun a => stringToString (String.ofList a))]).toList
+        == some ["printf".toList, "".toList, "a b".toList, "x\"y\\z".toList, "*".toList, "-n".toList]
 
 end Tsh.C18
